@@ -17,20 +17,35 @@ pub struct PrefixSet<A> { pub _a: core::marker::PhantomData<A> }
 impl<A> core::default::Default for PrefixSet<A> { #[verifier::external_body] fn default() -> (r: Self) { unimplemented!() } }
 // irrc / rpsl types named by sink_error
 pub struct AutNum;
-pub enum Query { Ipv4Routes(AutNum), Ipv6Routes(AutNum), AsSetMembersRecursive(u64), RouteSetMembersRecursive(u64), Other }
+pub enum Query { Ipv4Routes(AutNum), Ipv6Routes(AutNum), AsSetMembersRecursive(u64), RouteSetMembersRecursive(u64), RpslObject(u64, u64), Other }
 pub mod irrc {
     pub mod error { pub enum Response { KeyNotFound, KeyNotUnique, Other } }
     pub enum Error { ResponseErr(super::Query, error::Response), Other }
 }
-// &(dyn std::error::Error + Send + Sync + 'static)
+// &(dyn std::error::Error + Send + Sync + 'static): what the error "really is" is ghost (arbitrary); downcast_ref::<T>() tells
 pub struct DynError;
+pub uninterp spec fn lib_of(e: &DynError) -> Option<Error>;          // Some iff the error is a bgpfu::Error
+pub uninterp spec fn irr_of(e: &DynError) -> Option<irrc::Error>;    // Some iff the error is an irrc::Error
+pub trait Downcast: Sized { spec fn of(e: &DynError) -> Option<Self>; }
+impl Downcast for Error { open spec fn of(e: &DynError) -> Option<Self> { lib_of(e) } }
+impl Downcast for irrc::Error { open spec fn of(e: &DynError) -> Option<Self> { irr_of(e) } }
 impl DynError {
-    // <dyn Error>::downcast_ref::<T>: Some iff the error is a T (which one it is: arbitrary)
+    // <dyn Error>::downcast_ref::<T>
     #[verifier::external_body]
-    pub fn downcast_ref<T>(&self) -> (r: Option<&T>) { unimplemented!() }
+    pub fn downcast_ref<T: Downcast>(&self) -> (r: Option<&T>)
+        ensures match r { Some(x) => T::of(self) == Some(*x), None => T::of(self) is None }
+    { unimplemented!() }
+}
+// the IRR error an error item carries, directly or wrapped in bgpfu::Error::Irr
+pub open spec fn irr_view(e: &DynError) -> Option<irrc::Error> {
+    match lib_of(e) { Some(Error::Irr(x)) => Some(x), _ => irr_of(e) }
+}
+// C03: "the IRR does not know this route-set / filter-set" - the answer to the set query itself is KeyNotFound
+pub open spec fn unknown_set(e: &DynError) -> bool {
+    irr_view(e) matches Some(irrc::Error::ResponseErr(q, irrc::error::Response::KeyNotFound)) && (q is RouteSetMembersRecursive || q is RpslObject)
 }
 // lib/src/error.rs (data carrier; only the variants used here)
-pub enum Error { AcquireConnection, UnresolvablePeerAs, Other }
+pub enum Error { Irr(irrc::Error), AcquireConnection, UnresolvablePeerAs, Other }
 pub struct RpslEvaluator { pub conn: Option<Connection> }
 
 impl RpslEvaluator {
@@ -46,6 +61,9 @@ impl RpslEvaluator {
         // C15: whatever error an item of an IRR response carries, classifying it never panics (the evaluation task is shared by all
         // policies) and leaves the evaluator untouched
         ensures *final(self) == *old(self),                                                    // OBL:C15.sink_error.evaluator_untouched
+                // C03: sinking an error means "carry on without that item"; the error that says the IRR does not know the
+                // route-set / filter-set itself must not be sunk, or the expression silently evaluates to the empty set
+                unknown_set(err) ==> !res,                                                     // OBL:C03.sink_error.unknown_set_is_not_swallowed
 //@end
 //@extract id=resolve_peer_as file=lib/src/query.rs impl=/Resolver<'_, PeerAs, PrefixSet<Any>> for RpslEvaluator/ fn=resolve rules=R1
 //@sig pub fn resolve_peer_as(&mut self, _peer_as: &PeerAs) -> (res: Result<PrefixSet<Any>, Error>)
